@@ -12,6 +12,7 @@ func init() {
 			"FE-ORD: no path completes an operation without executing the look-ahead; an empty parenthesised operand yields no pairs (operands matched by key)",
 			"CH-MAP of the sample operations (what each operator of a chain computes), with the operand-side tracer following conversions, arithmetic and loop-carried values",
 			"PV-FRESH step buffers; PV-ROLE build constructs no expression node (no re-association or folding after parsing)",
+			"PV-ROLE LiteralBinOp always builds the literal iterator (no neutral-element short cut); the lexer hands on the scanned text itself",
 		},
 		NotDecided: []string{"operand parsing (parseMetricExpr1 productions other than parentheses) – C05", "evaluation of the resulting tree – C12"},
 		Rules: func(r *Run) {
@@ -22,6 +23,9 @@ func init() {
 			ruleSampleBinOp(r)       // what a chain evaluates to: each operator computes its own function of (left, right)
 			ruleStepBuffers(r)       // the in-place result of an inner operation never feeds a later step of an outer one
 			ruleBuildKeepsTree(r)
+			ruleLiteralBinOpCtor(r)
+			ruleKeywordLookupExact(r)
+			ruleUnitEvaluators(r)
 		},
 	})
 }
